@@ -274,6 +274,53 @@ func (r *Run) Finish(level string, rule string) {
 	os.Exit(0)
 }
 
+// RacePass folds the reports of the separate free-running -race pass (written by the race
+// runtime to files named by VERIF_RACE_LOGS) into this run: a data race is a violation.
+func (r *Run) RacePass() {
+	prefix := os.Getenv("VERIF_RACE_LOGS")
+	if prefix == "" {
+		r.Set("race_pass", "not run")
+		return
+	}
+	files, _ := filepath.Glob(prefix + "*")
+	races := 0
+	for _, f := range files {
+		b, err := os.ReadFile(f)
+		if err != nil {
+			continue
+		}
+		txt := string(b)
+		for _, rep := range strings.Split(txt, "==================") {
+			if !strings.Contains(rep, "DATA RACE") {
+				continue
+			}
+			races++
+			// key: the first two source locations inside the repository
+			var locs []string
+			for _, line := range strings.Split(rep, "\n") {
+				line = strings.TrimSpace(line)
+				if strings.HasPrefix(line, "/repo/") {
+					if i := strings.Index(line, " "); i > 0 {
+						line = line[:i]
+					}
+					locs = append(locs, strings.TrimPrefix(line, "/repo/"))
+					if len(locs) == 2 {
+						break
+					}
+				}
+			}
+			if len(locs) == 0 {
+				continue // a race inside the harness itself, not in the repository
+			}
+			if len(rep) > 2500 {
+				rep = rep[:2500]
+			}
+			r.Violation("data-race:"+strings.Join(locs, "+"), "the free-running -race pass reports a data race at "+strings.Join(locs, " / "), map[string]interface{}{"report": rep})
+		}
+	}
+	r.Set("race_pass", map[string]interface{}{"log_files": len(files), "race_reports": races, "note": "sampling pass (free-running goroutines under the race detector); it only answers 'race report present/absent' and does not decide the interleaving claims"})
+}
+
 // HarnessError aborts with exit 2 (never a VIOLATION).
 func HarnessError(format string, a ...interface{}) {
 	fmt.Printf("HARNESS-ERROR "+format+"\n", a...)
